@@ -1,4 +1,5 @@
 """C20 — keys: exact size, private, never overwritten; HKDF per RFC 5869; whole-file keying."""
+import re
 import hashlib, hmac as pyhmac, json, os, re, shutil, stat, struct, subprocess, threading
 from concurrent.futures import ThreadPoolExecutor
 import vlib
@@ -248,6 +249,8 @@ def case_line(c):
         return "KEY " + c[1]
     if c[0] == "FSIZE":
         return "FSIZE %s %s %s" % (c[1], c[2], c[3])
+    if c[0] == "NOGETRANDOM":
+        return "NOGETRANDOM %s %s" % (c[1], c[2])
     return repr(c)
 
 
@@ -270,6 +273,9 @@ def parse_case(l):
     if f[0] == "FSIZE":
         g = f[1].split()
         return ("FSIZE", g[0], g[1], g[2])
+    if f[0] == "NOGETRANDOM":
+        g = f[1].split()
+        return ("NOGETRANDOM", g[0], g[1])
     raise ValueError("unknown case line " + l[:40])
 
 
@@ -349,6 +355,42 @@ def do_fsize(rn, c):
     elif lim >= want and rc != 0 and not san_abort(rc, err):
         why = "mungekey fails although the file-size limit (%d) admits the %d-byte key: %s" % (lim, want, err[-100:])
     return obs, why, None
+
+
+def do_nogetrandom(rn, c):
+    """getrandom()/getentropy() unavailable (ENOSYS): a key may only be written from the OTHER kernel source; two runs with the same
+    salt must then give different keys of the requested size (a key that does not change between runs is not made of kernel
+    entropy), or mungekey must fail"""
+    bits, salth = int(c[1]), c[2]
+    keys, obs = [], []
+    for k in range(2):
+        d = rn.fresh()
+        p = os.path.join(d, "k")
+        tr = os.path.join(d, "trace")
+        rc, err = rn.run("strace", ["-f", "-o", tr, "-e", "trace=openat,open,read", rn.mkw, "-k", p, "-b", str(bits)],
+                         env={"C20_IKM": "00", "C20_SALT": salth, "C20_GETRANDOM_FAIL": "1", "C20_LOG": os.path.join(d, "log")})
+        s = snap(p)
+        trace = open(tr, errors="replace").read() if os.path.exists(tr) else ""
+        fds = re.findall(r'open(?:at)?\([^\n]*"/dev/u?random"[^\n]*\) = (\d+)', trace)
+        got_bytes = sum(int(n) for fd in fds for n in re.findall(r"read\(%s, [^\n]*\) = (\d+)" % fd, trace))
+        shutil.rmtree(d, True)
+        if rc == 0 and got_bytes == 0:
+            obs.append({"rc": rc, "kernel_random_bytes_read": got_bytes})
+            return {"runs": obs}, ("getrandom() unavailable (ENOSYS): mungekey reports success and wrote a %s-byte key without reading a single byte "
+                                   "from the kernel's random device: the key is not produced from kernel entropy"
+                                   % (len(s[4]) if s and s[4] is not None else "?")), None
+        obs.append({"rc": rc, "size": len(s[4]) if s and s[4] is not None else None, "stderr": err[-160:]})
+        if san_abort(rc, err):
+            return {"runs": obs}, "mungekey aborts under ASan/UBSan when getrandom() is unavailable", None
+        if rc == 0:
+            if s is None or s[0] != "reg" or len(s[4]) != (bits + 7) // 8:
+                return {"runs": obs}, "getrandom() unavailable: mungekey reports success but the key file holds %s bytes, requested %d" % (obs[-1]["size"], (bits + 7) // 8), None
+            keys.append(s[4])
+    why = None
+    if len(keys) == 2 and keys[0] == keys[1]:
+        why = ("getrandom() unavailable (ENOSYS): two runs wrote the SAME %d-byte key %s...: the key is not derived from kernel entropy "
+               "(the fall-back source was not read)" % (len(keys[0]), keys[0][:8].hex()))
+    return {"runs": obs}, why, None
 
 
 def san_abort(rc, err):
@@ -626,7 +668,8 @@ def run(ctx):
     hcases = gen_hkdf(ctx)
     fsize = [("FSIZE", str(b), str(l), i) for (b, l) in ((256, 0), (256, 31), (256, 32), (1024, 100), (1024, 127), (1024, 128), (2000, 249),
                                                         (8192, 1), (8192, 1000), (8192, 1023), (8192, 1024), (4096, 511)) for i in ("0", "1")]
-    pcases = gen_bits(ctx) + gen_umask(ctx) + gen_exist(ctx) + gen_wrap(ctx) + fsize
+    nogr = [("NOGETRANDOM", str(b), "%08x" % sl) for b in (256, 1024, 8192) for sl in (0, 0x01020304)]
+    pcases = gen_bits(ctx) + gen_umask(ctx) + gen_exist(ctx) + gen_wrap(ctx) + fsize + nogr
     kcases, kpairs = gen_keys(ctx)
     if ctx.replay:
         r = json.load(open(ctx.replay))
@@ -676,6 +719,8 @@ def run(ctx):
             return do_exist(rn, c)
         if c[0] == "FSIZE":
             return do_fsize(rn, c)
+        if c[0] == "NOGETRANDOM":
+            return do_nogetrandom(rn, c)
         return do_wrap(rn, c, facts)
     if pcases:
         with ThreadPoolExecutor(8) as ex:
